@@ -426,6 +426,15 @@ static ssize_t ck_out_write(void *cookie, const char *buf, size_t n) {
   int kind = os->file < 0 ? K_OUT : K_CWRITE;
   const EnvAns *a = in_lib() ? answer(kind) : nullptr;
   size_t take = n;
+  if (a && a->ans == ANS_FAIL && a->err == EAGAIN && n > 0) {
+    // a one-off failure (e.g. a non-blocking pipe that is full right now): this block is lost, later writes work.
+    // Not sticky, and not counted as a refusal: the process may give up (non-zero status) - but if it reports
+    // success, its output is judged in full
+    cur_ctx()->soft_faults++;
+    G.st.transient_short_writes++;
+    errno = EAGAIN;
+    return 0;
+  }
   if (a && a->ans == ANS_SHORT && a->err == EINTR && n > 1) {
     // transient partial write(2): stdio has to write the rest itself
     cur_ctx()->soft_faults++;
@@ -1099,6 +1108,12 @@ extern "C" ssize_t __wrap_write(int fd, const void *buf, size_t n) {
   }
   if (failedp && *failedp && n > 0) {
     errno = *errp;
+    return -1;
+  }
+  if (a && a->ans == ANS_FAIL && a->err == EAGAIN && n > 0) {  // one-off, see ck_out_write
+    cur_ctx()->soft_faults++;
+    G.st.transient_short_writes++;
+    errno = EAGAIN;
     return -1;
   }
   if (a && (a->ans == ANS_FAIL || a->ans == ANS_SHORT) && a->err == EINTR && n > 0) {
